@@ -10,7 +10,7 @@ every non-crate callee returns an arbitrary value of its type; `set_len` is a gr
 to existing bytes; unwinding (cleanup) paths are not followed.
 
 usage: python3-vt -m mirsmt.effects <mir_memmap.txt> <src dir> <out.json>"""
-import sys, re, json, time
+import sys, re, json, time, os, subprocess
 import z3
 from . import mir, sym
 from .sym import Tup, Enum, Opaque, Closure, LocalRef, MemRef, UNIT, bv, Frame, INT_W
@@ -244,13 +244,32 @@ def explore(mir_text, src, entry_pat):
     return prog, ex, ends, opts, names[0]
 
 
+DIFF = {"queries": 0, "disagreements": 0, "inconclusive": 0, "solver": "cvc5 --lang smt2 (QF_BV), same SMT-LIB text as z3 decided"}
+
+
 def feasible(ex, guard, extra=()):
     s = z3.Solver()
     s.set("timeout", 20000)
     s.add(ex.side)
     s.add(guard)
     s.add(*extra)
-    return s.check()
+    r = s.check()
+    if os.environ.get("MIRSMT_DIFF") and r in (z3.sat, z3.unsat):
+        # second solver on the same query (thorough tier): a disagreement makes the whole run inconclusive
+        try:
+            p = subprocess.run(["cvc5", "--lang", "smt2", "--tlimit=20000", "-"], input=("(set-logic QF_BV)\n" + s.to_smt2()).encode(),
+                               stdout=subprocess.PIPE, stderr=subprocess.PIPE, timeout=40)
+            out = p.stdout.decode().strip().split("\n")[0] if p.stdout else ""
+            err = p.stderr.decode()
+        except Exception as e_:
+            out, err = "", str(e_)
+        DIFF["queries"] += 1
+        if "(error" in err or "(error" in out or out not in ("sat", "unsat"):
+            DIFF["inconclusive"] += 1
+        elif out != str(r):
+            DIFF["disagreements"] += 1
+            raise Unsupported("second solver disagrees: z3 %s, cvc5 %s" % (r, out))
+    return r
 
 
 def check(mir_text, src, label, entry, readonly):
@@ -363,6 +382,8 @@ def main():
     except Unsupported as e:
         out["error"] = "unsupported MIR construct: " + str(e)
     out["wall_s"] = round(time.time() - t0, 1)
+    if os.environ.get("MIRSMT_DIFF"):
+        out["second_solver"] = dict(DIFF)
     json.dump(out, open(sys.argv[3], "w"), indent=1, default=str)
     print(json.dumps(out, indent=1, default=str)[:3000])
 
